@@ -25,7 +25,7 @@ EvCall == /\ E.t = "call"
           /\ rc' = IF E.m = "rcpt" THEN rc \o E.objs ELSE IF E.m = "rset" THEN <<>> ELSE rc
           /\ lastcall' = E
           /\ UNCHANGED sent
-EvPeerSent == /\ E.t = "peer_sent" /\ sent' = Append(sent, [code |-> E.code, nl |-> E.nl])
+EvPeerSent == /\ E.t = "peer_sent" /\ sent' = Append(sent, [code |-> E.code, nl |-> E.nl, ntok |-> E.ntok])
               /\ UNCHANGED <<nobj, rc, lastcall, bad>>
 EvStarved == /\ E.t = "starved" /\ bad' = bad \cup {"C10_NeverReadsUnowed"} /\ UNCHANGED <<nobj, sent, rc, lastcall>>
 EvRaised == /\ E.t = "raised" /\ bad' = bad \cup {"C10_NoRaise"} /\ UNCHANGED <<nobj, sent, rc, lastcall>>
@@ -39,8 +39,8 @@ EvLmtpRet == /\ E.t = "lmtp_ret"
 ObjOk(o, x) == x.code # 0 =>
                  /\ o <= Len(sent) /\ x.code = sent[o].code
                  /\ \A k \in 1..Len(x.toks) : x.toks[k] = o
-                 /\ Len(x.toks) >= 1
-                 /\ (~x.ehlo => x.nl = sent[o].nl /\ Len(x.toks) = x.nl)
+                 /\ (x.ehlo => Len(x.toks) >= 1)
+                 /\ (~x.ehlo => x.nl = sent[o].nl /\ Len(x.toks) = sent[o].ntok)      \* (ntok: lines that carry text)
 EvSnap == /\ E.t = "snap"
           /\ bad' = bad
                \cup Flag("C10_Pairing", /\ Len(E.objs) = nobj
